@@ -1,2 +1,6 @@
 #!/bin/bash
-exit 0
+# offline build of the harness from files on disk
+set -e
+cd /verif/harness
+export CARGO_NET_OFFLINE=true
+cargo build --release --offline
